@@ -7,7 +7,7 @@ from harness import core
 
 CONTRACT_NAMES = ["CDefError", "FFIError", "VerificationMissing", "VerificationError", "NotImplementedError",
                   "OverflowError", "ZeroDivisionError", "AssertionError", "IndexError", "KeyError",
-                  "AttributeError", "RecursionError", "UnicodeError", "TypeError", "ValueError"]
+                  "AttributeError", "RecursionError", "TypeError", "ValueError"]   # UnicodeError is a ValueError
 
 
 def classify(e, ffi_error=None):
@@ -136,6 +136,26 @@ MUT_WORDS = ["int", "unsigned", "long", "struct", "enum", "union", "typedef", "c
              "[...]", "(*)", "/*", "*/", "//", "\\\n", "#line", "# 1 \"", ":0", ": -1", "= ...", "18446744073709551616"]
 
 
+def special_strings(rng, n):
+    """type strings for the compiled FFI that a byte-level mutator over ASCII seeds does not reach: strs that cannot be
+    encoded as UTF-8 (lone surrogates at the start / middle / end), embedded NUL characters, non-BMP text, and long
+    strings (deep pointer / array / parenthesis / parameter nests below and above the opcode buffer's size)."""
+    out = ["\udc80", "\ud800", "int\udc80", "\udfffint", "in\udc80t *", "int *\ud800", "struct \udc80s1", "int[\udc803]",
+           "int(*)(\udc80)", "\x00", "int\x00", "\x00int", "int\x00 *", "int *\x00garbage(((", "int[3\x00]", "\U0001F600", "int \U0001F600",
+           "int" + " " * 5000, " " * 5000 + "int", "int " + "*" * 1198, "int " + "*" * 1199, "int " + "*" * 1200, "int " + "*" * 1500,
+           "int" + "[2]" * 598, "int" + "[2]" * 599, "int" + "[2]" * 600, "int" + "[]" * 1300,
+           "int " + "(" * 600 + "*" + ")" * 600, "int " + "(*" * 598 + ")" * 598, "int " + "(*" * 599 + ")" * 599,
+           "int " + "(*" * 600 + ")" * 600, "int " + "(*" * 3000, "int(*)(" + "int," * 1196 + "int)", "int(*)(" + "int," * 1197 + "int)",
+           "int(*)(" + "," * 1300 + ")", "int(*)(" * 300 + ")" * 300, "int(*)(" * 400, "x" * 100000, "int[" + "9" * 5000 + "]"]
+    seeds = TYPEOF_SEEDS
+    while len(out) < n:
+        s = rng.choice(seeds)
+        i = rng.randrange(len(s) + 1)
+        ch = rng.choice(["\udc80", "\ud800", "\udfff", "\x00", "\U0001F600", "\x85", "\u2028"])
+        out.append(s[:i] + ch + s[i:])
+    return out
+
+
 def mutate(rng, s, n=None):
     """1..3 byte-level mutations: insert / delete / replace a byte, insert a word, duplicate a
     span, swap two bytes, truncate."""
@@ -177,7 +197,7 @@ sys.path.insert(0, workdir)
 ffi = importlib.import_module(modname).ffi
 import _cffi_backend
 names = ["OverflowError", "ZeroDivisionError", "AssertionError", "IndexError", "KeyError", "AttributeError",
-         "RecursionError", "UnicodeError", "TypeError", "ValueError"]
+         "RecursionError", "TypeError", "ValueError"]
 with open(inp) as f:
     items = json.load(f)
 start = int(sys.argv[5])
@@ -202,6 +222,8 @@ for i in range(start, len(items)):
                     cls = k.__name__
                     break
         msg = (str(e).splitlines() or [""])[0][:80]
+        if cls == "RuntimeError" and msg.startswith("type-building recursion too deep"):
+            cls = "DepthLimit"      # realize_c_type's guard against > 1000 nested levels (a resource limit)
     if sanlog and os.path.exists(sanlog) and os.path.getsize(sanlog) > seen:
         # a sanitizer report was written while this input was processed (recover mode)
         with open(sanlog, errors="replace") as f:
